@@ -36,7 +36,7 @@ func bulkWorkload(name string, n, tail, stride int) Workload {
 }
 
 func bulkWorkloads(thorough bool) (ws []Workload) {
-	stride, every := 1021, 5
+	stride, every := 2047, 8
 	if thorough {
 		stride, every = 97, 1
 	}
@@ -76,7 +76,7 @@ func bulkSelector(s *Sched, w Workload) func(name string) bool {
 				inOp++
 				return inOp%w.BulkStride == 0
 			}
-			// after the flush: the next block completely, then (quick) every fifth hit
+			// after the flush: the next block completely, then (quick) every eighth hit
 			after++
 			return s.opIdx == first+1 || w.BulkEvery <= 1 || after%w.BulkEvery == 0
 		}
@@ -84,7 +84,7 @@ func bulkSelector(s *Sched, w Workload) func(name string) bool {
 		if name == "blockdb.write:before-dat" {
 			written++
 		}
-		return inOp <= 4 || inOp%w.BulkStride == 0 || written > trigger-2
+		return inOp <= 3 || inOp%w.BulkStride == 0 || written > trigger-1
 	}
 }
 
